@@ -2,6 +2,8 @@ package drivers
 
 import (
 	"encoding/json"
+	"reflect"
+	"strings"
 	"sync"
 	"time"
 
@@ -43,6 +45,7 @@ type wdObs struct {
 	Identity bool      `json:"identity"`
 }
 type wdLine struct {
+	Events []cnEvent `json:"events"`
 	Ev     string   `json:"ev"`
 	ID     int      `json:"id"`
 	Script wdScript `json:"script"`
@@ -67,7 +70,7 @@ type dwrSeen struct {
 }
 
 func runWatchdog(id int, sc *wdScript) wdLine {
-	l := wdLine{Ev: "wd", ID: id, Script: *sc, Obs: wdObs{Rounds: []wdRound{}, Identity: true}}
+	l := wdLine{Ev: "wd", ID: id, Script: *sc, Obs: wdObs{Rounds: []wdRound{}, Identity: true}, Events: []cnEvent{}}
 	set := *cliSettings
 	set.OriginStateID = 0
 	mach := sm.New(&set)
@@ -86,6 +89,9 @@ func runWatchdog(id int, sc *wdScript) wdLine {
 		EnableWatchdog: true, WatchdogInterval: time.Duration(sc.WI) * time.Millisecond,
 		AuthApplicationID: []*diam.AVP{diam.NewAVP(avp.AuthApplicationID, avp.Mbit, 0, datatype.Unsigned32(4))}}
 	mc := memnet.NewConn()
+	lg := &evlog{}
+	logsByConn.Store(reflect.ValueOf(mc).Pointer(), lg)
+	defer logsByConn.Delete(reflect.ValueOf(mc).Pointer())
 	var mu sync.Mutex
 	var seen []dwrSeen
 	copies := map[uint32]int{} // copies per hop-by-hop id
@@ -94,7 +100,7 @@ func runWatchdog(id int, sc *wdScript) wdLine {
 	answer := func(hbh uint32) (bool, uint32) {
 		r, c := roundNo[hbh], copies[hbh]
 		switch sc.Kind {
-		case "all":
+		case "all", "dup":
 			return true, 2001
 		case "stop_after":
 			return r <= sc.N, 2001
@@ -121,18 +127,36 @@ func runWatchdog(id int, sc *wdScript) wdLine {
 				seen = append(seen, dwrSeen{raw: m.Raw, hbh: m.HbH, t: time.Now()})
 				yes, rc := answer(m.HbH)
 				mu.Unlock()
+				switch {
+				case !yes:
+					lg.add(cnEvent{Ev: "dwr.rx", K: "silent"})
+				case rc == 2001:
+					lg.add(cnEvent{Ev: "dwr.rx", K: "ok"})
+				default:
+					lg.add(cnEvent{Ev: "dwr.rx", K: "fail"})
+				}
 				if yes {
 					dwa := buildDWA(m.HbH, m.E2E, rc)
 					if sc.Sync {
 						// the answer is read and dispatched before the transport write returns
 						mc.Feed(dwa)
 						mc.WaitReaderBlocked(2 * time.Second)
+						if sc.Kind == "dup" {
+							lg.add(cnEvent{Ev: "dwa.dup"})
+							mc.Feed(dwa)
+							mc.WaitReaderBlocked(2 * time.Second)
+						}
 					} else {
 						go func() {
 							if sc.Delay > 0 {
 								time.Sleep(time.Duration(sc.Delay) * time.Millisecond)
 							}
 							mc.Feed(dwa)
+							if sc.Kind == "dup" {
+								mc.WaitReaderBlocked(2 * time.Second)
+								lg.add(cnEvent{Ev: "dwa.dup"})
+								mc.Feed(dwa)
+							}
 						}()
 					}
 				}
@@ -169,6 +193,12 @@ func runWatchdog(id int, sc *wdScript) wdLine {
 	mu.Lock()
 	all := append([]dwrSeen(nil), seen...)
 	mu.Unlock()
+	// the log up to the point where the observation ends (the test's own Close is not part of it)
+	for _, e := range lg.snapshot() {
+		if strings.HasPrefix(e.Ev, "wd.") || strings.HasPrefix(e.Ev, "dwa.") || e.Ev == "dwr.rx" || e.Ev == "dwa.dup" {
+			l.Events = append(l.Events, e)
+		}
+	}
 	mc.Close()
 	// group into rounds
 	var order []uint32
@@ -272,6 +302,7 @@ func runDWRs(out *Out, id *int) {
 }
 
 func Watchdog(a Args) error {
+	installSMHook()
 	out, err := NewOut(a.Out)
 	if err != nil {
 		return err
